@@ -29,7 +29,8 @@ SUITE_LEAVES = {("value", None, "equal_to"), ("value", "length", "equal_to"), ("
                 ("key", None, "equal_to"), ("index", None, "equal_to"), ("value", None, "null"), ("value", None, "truthy")}
 SHAPES = G.shapes_for(("value", "key", "index"), meaningful=True)
 
-PATHY_KEYS = ["path", "path.length", "\\path", "PATH", "Path.first", "xpath", "a\\path", "path.first.length", "\\PATH"]
+PATHY_KEYS = ["path", "path.length", "\\path", "PATH", "Path.first", "xpath", "a\\path", "path.first.length", "\\PATH",
+              "path.xpath", "pathpath", "a\\pathpath", "path_of_path"]
 
 
 def pathy_literal(r):
@@ -44,6 +45,9 @@ def pathy_literal(r):
 
 def special_arg(r):
     c = r.pct()
+    if c < 6:
+        # a zero-part path (the whole document), with a datum modifier
+        return PathT([], r.choice(["length", "dtype", None]))
     if c < 50:
         return c09.small_path(r, jsonable=True)
     if c < 62:
